@@ -51,8 +51,8 @@ def run(tier, seed):
         "Mixed. Deductive: SAFE (no IndexError/ValueError/AssertionError/unbound local at any site) and DEC (every loop terminates) obligations are "
         "discharged for the StateBlock scanning helpers, the seven leaf block rules, ParserBlock.tokenize (progress: the paragraph fallback always matches; rules run only under level < maxNesting on non-empty lines), ParserInline.tokenize/skipToken (position strictly advances; memo invariant cache[p] > p) and the escape rule, under the line-table invariant WF (which the run-time monitors "
         "confirm on every real call). Bounded: a no-exception/no-hang monitor on the four API methods over the wrapped line universe and the inline "
-        "universe x 9-12 configurations. blockquote, list_block and its marker scanners, parseLinkTitle and text_join are verified too. The delimiter pipeline (scanDelims, the emphasis/strikethrough/newline rules, processDelimiters, both _postProcess rules, fragments_join) is verified for safety - including that no computed index is negative, so nothing wraps around - and termination. The table and reference rules are verified as well (safety, termination, balanced pushes, progress, restore). The remaining inline rules (entity, html_inline - their advance is the length of a regex match; autolink, link, image, text and backticks are verified - text stays within posMax only because link/image lower posMax onto a terminator character, which its contract states as a precondition), smartquotes/replacements internals, "
-        "the renderer's Python-level safety and getLines (assumed contract) are covered by the bounded monitor only.")
+        "universe x 9-12 configurations. blockquote, list_block and its marker scanners, parseLinkTitle and text_join are verified too. The delimiter pipeline (scanDelims, the emphasis/strikethrough/newline rules, processDelimiters, both _postProcess rules, fragments_join) is verified for safety - including that no computed index is negative, so nothing wraps around - and termination. The table and reference rules are verified as well (safety, termination, balanced pushes, progress, restore). All inline rules of the three chains except linkify are verified: autolink, link, image, text, backticks, and - with a structural model of their anchored regular expressions read from the compiled pattern objects (character classes enumerated on the real matcher) - entity (int()/chr()/table lookup cannot raise; a match never crosses posMax because its characters are not terminator characters), html_inline (advance >= 3; that the match ends inside posMax stays an assumption) and the decoder replaceEntityPattern. text stays within posMax only because link/image lower posMax onto a terminator character, which its contract states as a precondition. Every verified function also proves a frame condition at exit (FRAME/exit/<path>): whatever it wrote that its (effective) modifies clause does not name holds its entry value again - callers rely on exactly that. "
+        "smartquotes/replacements internals, the renderer's Python-level safety, html_block's EOF argument for getLines (a column argument) and linkify are covered by the bounded monitor only.")
     rep.trusted_base += STD_TRUST
     rep.assumptions += ["WF (DESIGN 3.2) holds at every rule call: monitored at run time, established deductively only for the leaf rules' callers in progress",
                        "generic rule contract for terminator rules (plugins assumed to satisfy it)", "StateBlock.getLines: safety and termination proved under its EOF precondition; the content of its result is summarised by an uninterpreted string function"]
